@@ -70,12 +70,28 @@ def run(chk):
         lines.append(pittime.line(K, d0, beta, gamma))
         reals.append(pittime.real_answer(layer, d0))
         meta.append((K, d0, a, t, beta, gamma))
+    # random real-valued vectors (fractional parameters whose *cumulative* sums cross the threshold,
+    # as a real search leaves them behind); sums of palette values are exact in float32
+    n_rand = 600 if chk.quick else 12000
+    rand_jobs = []
+    for i in range(n_rand):
+        K = chk.rng.randint(2, kmax)
+        d0 = chk.rng.choice([1, 2, 3])
+        pal = chk.rng.choice([pittime.PAL_DYADIC, pittime.PAL_THRESH, [0, 1 / 8, 1 / 4, 3 / 8, 1 / 4, 1 / 8]])
+        beta = [float(chk.rng.choice(pal)) for _ in range(K)]
+        gamma = [float(chk.rng.choice(pal)) for _ in range(pittime.gamma_len(K))]
+        layer = pittime.real_time(K, d0, beta, gamma)
+        lines.append(pittime.line(K, d0, beta, gamma))
+        reals.append(pittime.real_answer(layer, d0))
+        meta.append((K, d0, -1, -1, beta, gamma))
+        if i % 12 == 0:
+            rand_jobs.append((K, d0, beta, gamma, chk.rng.randint(0, 1 << 30)))
     answers = chk.driver('PITTime', lines)
     for (K, d0, a, t, beta, gamma), real, ans in zip(meta, reals, answers):
         mod, toks = pittime.model_answer(ans)
         case = {'K': K, 'd0': d0, 'a': a, 't': t, 'beta': beta, 'gamma': gamma}
         chk.corr(case, real, mod, 'PITConv1d theta/time_mask/kernel_size_opt/dilation_opt')
-        chk.count(('time', K, d0, tuple(beta), tuple(gamma)), nontrivial=(a > 0 or t > 0), bucket='time:K=%d' % K,
+        chk.count(('time', K, d0, tuple(beta), tuple(gamma)), nontrivial=(a != 0 or t != 0), bucket=('time:K=%d' % K) if a >= 0 else 'time:random-real',
                   sample=case if (a > 0 and t > 0) else None)
         if toks.get('aligned') != '1':
             chk.corr(case, 'aligned', 'model says export misaligned', 'model self-check (exportAligned)')
@@ -86,6 +102,7 @@ def run(chk):
             continue
         beta, gamma = pittime.shape_vectors(K, a, t, chk.rng, True)
         jobs.append((K, d0, beta, gamma, chk.rng.randint(0, 1 << 30)))
+    jobs += rand_jobs
     outs = common.pmap(pittime.single_layer_export, jobs)
     lines = [pittime.line(K, d0, beta, gamma) for (K, d0, beta, gamma, _) in jobs]
     answers = chk.driver('PITTime', lines)
